@@ -3,6 +3,7 @@ package main
 // Whole-program frame analyses for C20 (hidden mutable state) and the registry enumeration for C03.
 
 import (
+	"regexp"
 	"fmt"
 	"go/ast"
 	"go/types"
@@ -483,4 +484,63 @@ func extraPairs(ctx *Ctx, id string, ev map[string]interface{}, report func(stri
 	ev["extra_discharged"] = intOf(ev["extra_discharged"]) + len(common) + len(wrappers)
 	ev["encoder_pairs"] = map[string]interface{}{"same_trace_specification_on_both": common, "canonical_wrapper_contract": wrappers, "not_covered": uncovered}
 	fmt.Printf("encoder pairs: %d with a common trace specification, %d canonical wrappers, %d not covered %v\n", len(common), len(wrappers), len(uncovered), uncovered)
+}
+
+
+var reBodyFn = regexp.MustCompile(`\.tr == (\w+)\(`)
+
+// extraC01Pairs: for which box types are the slice-reader decoder and EncodeSW both specified by the SAME body-trace function
+// (C01-tagged ensures)? Types with only one side specified, or with different functions, are listed separately.
+func extraC01Pairs(ctx *Ctx, id string, ev map[string]interface{}, report func(string, map[string]interface{}, bool), known map[string]knownFinding) {
+	bodyOf := func(fn *ssa.Function) string {
+		c := ctx.contractOf(fn)
+		if c == nil {
+			return ""
+		}
+		for _, en := range c.Ensures {
+			if contains(en.Tags, "C01") {
+				if m := reBodyFn.FindStringSubmatch(en.Text); m != nil {
+					return m[1]
+				}
+			}
+		}
+		return ""
+	}
+	dec := map[string]string{} // body function -> decoder
+	enc := map[string]string{}
+	for _, k := range ctx.sortedFuncKeys() {
+		fn := ctx.funcs[k]
+		if fn.Pkg == nil || fn.Pkg.Pkg.Name() != "mp4" || fn.Synthetic != "" {
+			continue
+		}
+		b := bodyOf(fn)
+		if b == "" {
+			continue
+		}
+		if fn.Signature.Recv() == nil && strings.HasPrefix(fn.Name(), "Decode") {
+			dec[b] = fn.Name()
+		} else if fn.Signature.Recv() != nil && strings.HasPrefix(fn.Name(), "EncodeSW") {
+			enc[b] = typeKey(derefOrSelf(fn.Signature.Recv().Type())) + "." + fn.Name()
+		}
+	}
+	var both, onlyDec, onlyEnc []string
+	for b, dn := range dec {
+		if en, ok := enc[b]; ok {
+			both = append(both, fmt.Sprintf("%s: %s / %s", b, dn, en))
+		} else {
+			onlyDec = append(onlyDec, fmt.Sprintf("%s: %s", b, dn))
+		}
+	}
+	for b, en := range enc {
+		if _, ok := dec[b]; !ok {
+			onlyEnc = append(onlyEnc, fmt.Sprintf("%s: %s", b, en))
+		}
+	}
+	sort.Strings(both)
+	sort.Strings(onlyDec)
+	sort.Strings(onlyEnc)
+	ev["extra_obligations"] = intOf(ev["extra_obligations"]) + len(both)
+	ev["extra_discharged"] = intOf(ev["extra_discharged"]) + len(both)
+	ev["c01_body_trace_pairs"] = map[string]interface{}{"decoder_and_encoder_same_function": both, "decoder_only": onlyDec, "encoder_only": onlyEnc}
+	fmt.Printf("C01 body-trace pairs: %d box types with decoder and encoder against the same function, %d decoder-only, %d encoder-only\n", len(both), len(onlyDec), len(onlyEnc))
 }
